@@ -14,7 +14,7 @@ import warnings
 from harness.common import Check, gen_corpus, fresh_env
 from harness import term_io, tlc, sexpr
 from harness.drivers.c01 import shape
-from harness.drivers.c07 import rename, names_in, has_pow, ODD_NAMES, EXCLUDED
+from harness.drivers.c07 import rename, names_in, has_pow, ODD_NAMES, EXCLUDED, let_clash_variants
 from pysmt.smtlib.parser import SmtLibParser
 from pysmt.smtlib.script import smtlibscript_from_formula
 from pysmt.parsing import HRParser
@@ -64,12 +64,19 @@ def run(ck):
             m = {ns[k % len(ns)]: odd[k % len(odd)]}
             if not (set(m.values()) & set(ns)):
                 terms.append(rename(j, m))
+    multi = [j for j in base if len(names_in(j, set())) >= 2]
+    for j in ck.rng.sample(multi, min(len(multi), 120 if quick else 1500)):
+        terms += let_clash_variants(j, sorted(names_in(j, set())))
     evs = []
     eid = 0
     nologic = 0
     hr_unparsed = {}
     hr = HRParser(env)
-    for j in terms:
+    for idx, j in enumerate(terms):
+        if idx >= len(base):
+            env = fresh_env()       # a renamed variant may reuse a name at another sort: one environment per variant
+            mgr = env.formula_manager
+            hr = HRParser(env)
         try:
             t = term_io.build_public(j, env)
             if has_pow(j):
